@@ -203,4 +203,6 @@ class SegwitChecker(SolutionChecker):
                     "this version witness program not yet supported",
                     errno.DISCOURAGE_UPGRADABLE_WITNESS_PROGRAM,
                 )
+            # future witness versions succeed without further checks, leaving a clean stack
+            return b"", [self.VM.VM_TRUE], flags, None  # type: ignore[attr-defined]
         return None
